@@ -365,10 +365,12 @@ def interp_shapes(F, R, rule='B.C06.interp'):
         ty = b.path[1:].split(' as ')[0]
         rets = sorted(set(str(p.ret) for p in explore(b) if p.end == 'return'))
         short = ty.split('::')[-1]
+        # (through a generic helper over the operator traits the same expression reads `Add::add(a, Mul::mul(Sub::sub(b, a), amount))`)
+        generic = ['std::ops::Add::add(a, std::ops::Mul::mul(std::ops::Sub::sub(b, a), amount))']
         if ty in ('f32', 'f64'):
-            want = ['Add(Mul(Sub(b, a), amount), a)']
+            want = generic if rets == generic else ['Add(Mul(Sub(b, a), amount), a)']
         elif ty == 'glam::Vec3':
-            want = ['<glam::Vec3 as std::ops::Add>::add(a, <glam::Vec3 as std::ops::Mul<f32>>::mul(<glam::Vec3 as std::ops::Sub>::sub(b, a), amount))']
+            want = generic if rets == generic else ['<glam::Vec3 as std::ops::Add>::add(a, <glam::Vec3 as std::ops::Mul<f32>>::mul(<glam::Vec3 as std::ops::Sub>::sub(b, a), amount))']
         elif ty.startswith(('decibels::', 'mix::', 'panning::', 'playback_rate::', 'semitones::')):
             want = None
             # (the inner call resolved to the float's impl, or - through a generic helper shared by the newtypes - left generic)
